@@ -24,8 +24,9 @@ assert r.returncode == 0, r.stderr
 r = sh('git -C %s apply %s/patch.diff' % (scratch, dst))
 meta['patch_applies'] = r.returncode == 0
 env = 'PYTHONWARNINGS=ignore PYTHONHASHSEED=0'
-d0 = sh('cd /tmp && PYTHONPATH=/repo %s timeout 900 /venv/bin/python %s/demo.py' % (env, dst))
-d1 = sh('cd /tmp && PYTHONPATH=%s %s timeout 900 /venv/bin/python %s/demo.py' % (scratch, env, dst))
+os.makedirs("/tmp/emptycwd", exist_ok=True)
+d0 = sh('cd /tmp/emptycwd && PYTHONPATH=/repo %s timeout 900 /venv/bin/python %s/demo.py' % (env, dst))
+d1 = sh('cd /tmp/emptycwd && PYTHONPATH=%s %s timeout 900 /venv/bin/python %s/demo.py' % (scratch, env, dst))
 meta['demo_unchanged_exit'] = d0.returncode
 meta['demo_changed_exit'] = d1.returncode
 meta['demo_changed_tail'] = (d1.stdout + d1.stderr)[-600:]
